@@ -174,6 +174,9 @@ def run_builtins(spec, res):
         versions = ('1.1',) if typ in DT.ONLY_11 else ('1.0', '1.1')
         texts = list(dict.fromkeys(catalogue(typ)))
         base = list(texts)
+        # Unicode white space that is not XSD white space (#x20 #x9 #xA #xD): an ordinary character for every type
+        for v in [t for t in base if t and t == t.strip()][:4]:
+            texts += ['\u00a0' + v, v + '\u2003', '\u2009' + v + '\u00a0'] + ([v[0] + '\u00a0' + v[1:]] if len(v) > 1 else [])
         for _ in range(spec['mutations']):
             t = mutate(rng.choice(base), rng)
             if rng.random() < 0.2:
@@ -312,7 +315,7 @@ def run_derived(spec, res):
     from lxml import etree
     rng = env.rng_for(PROPERTY, spec['tier'], spec['seed'], 'derived', spec['dshard'])
     for i in range(spec['n']):
-        kind = rng.choice(('int', 'decimal', 'string', 'token', 'date', 'list', 'union', 'hex', 'tz'))
+        kind = rng.choice(('int', 'decimal', 'string', 'token', 'date', 'list', 'union', 'hex', 'tz', 'ws'))
         facets1, facets2 = gen_facets(kind, rng), gen_facets(kind, rng)
         xsd, checker, texts = build_derived(kind, facets1, facets2, rng)
         if xsd is None:
@@ -393,6 +396,10 @@ def gen_facets(kind, rng):
             f['minInclusive'] = '2020-01-10'
         if rng.random() < 0.6:
             f['maxExclusive'] = '2020-03-01'
+    elif kind == 'ws':
+        # level 1 tightens whiteSpace, level 2 adds a length-family or enumeration facet: the facets see the text as
+        # normalised by the restricting type, not by its base
+        pass
     elif kind == 'tz':
         f['explicitTimezone'] = rng.choice(('optional', 'required', 'prohibited'))
     elif kind == 'list':
@@ -547,6 +554,21 @@ def build_derived(kind, f1, f2, rng):
                 return False
             return string_facets_ok(f1, '', length=len(n) // 2) and string_facets_ok(f2, '', length=len(n) // 2)
         texts = ['', '0F', '0F0F', '0f0f0f', '0F0F0F0F', '0F0F0F0F0F', '0F0F0F0F0F0F', '0', 'zz']
+        return xsd, chk, texts
+    if kind == 'ws':
+        base_t, ws = rng.choice((('string', 'replace'), ('string', 'collapse'), ('normalizedString', 'collapse')))
+        f2 = rng.choice(({'length': '3'}, {'maxLength': '3'}, {'minLength': '4'}, {'enumeration': ['abc', 'a b']}, {}))
+        xsd = (f'<xs:schema xmlns:xs="{XS}"><xs:simpleType name="A"><xs:restriction base="xs:{base_t}"><xs:whiteSpace value="{ws}"/>'
+               f'</xs:restriction></xs:simpleType>'
+               f'<xs:simpleType name="B"><xs:restriction base="A">{facet_xml(f2)}</xs:restriction></xs:simpleType>'
+               f'<xs:element name="e" type="B"/></xs:schema>')
+
+        def chk(t, version):
+            n = re.sub('[\t\n\r]', ' ', t)
+            if ws == 'collapse':
+                n = re.sub(' +', ' ', n).strip(' ')
+            return string_facets_ok(f2, n)
+        texts = ['abc', ' abc ', 'a b', 'a  b', 'a\tb', ' a b\n', 'abcd', ' ab', 'ab ', '\nabc\n', 'a   b', '', '   ', 'abc  d']
         return xsd, chk, texts
     if kind == 'tz':
         # XSD 1.1 explicitTimezone on date / dateTime / time (an XSD 1.0 processor refuses the facet)
